@@ -30,6 +30,20 @@ type c20Msg struct {
 type c20Handler struct {
 	Filter string `json:"filter"`
 	Mut    string `json:"mut"` // none overwrite append reslice topic flags id all
+	// Embed: the handler is an application type that embeds a library dispatcher (struct{ *ServeMux }) and overrides Serve:
+	// whatever unexported methods the embedded type has are promoted to it
+	Embed bool `json:"embed,omitempty"`
+}
+
+// c20Embed is such an application type.
+type c20Embed struct {
+	*ServeMux
+	h Handler
+}
+
+func (e *c20Embed) Serve(m *Message) {
+	e.h.Serve(m)
+	e.ServeMux.Serve(m) // (an empty inner mux: nothing further happens)
 }
 
 type c20Case struct {
@@ -97,7 +111,14 @@ func c20Run(tb rapid.TB, c c20Case) {
 	cur := 0
 	async := c.Mode != "mux"
 
+	var mkPlain func(i int, h c20Handler) Handler
 	mk := func(i int, h c20Handler) Handler {
+		if h.Embed {
+			return &c20Embed{ServeMux: &ServeMux{}, h: mkPlain(i, h)}
+		}
+		return mkPlain(i, h)
+	}
+	mkPlain = func(i int, h c20Handler) Handler {
 		return HandlerFunc(func(m *Message) {
 			if c.Mode == "async-rawmux" {
 				defer func() { rawDone <- struct{}{} }()
@@ -279,6 +300,7 @@ func c20Gen(rt *rapid.T) c20Case {
 		return c20Handler{
 			Filter: rapid.SampledFrom([]string{"a", "a/b", "b", "#", "+", "a/#", "a/+", "c"}).Draw(rt, "filter"),
 			Mut:    rapid.SampledFrom([]string{"none", "overwrite", "overwrite", "append", "reslice", "topic", "flags", "id", "all"}).Draw(rt, "mut"),
+			Embed:  rapid.IntRange(0, 4).Draw(rt, "embed") == 0,
 		}
 	}), 1, 6).Draw(rt, "handlers")
 	return c
